@@ -394,3 +394,23 @@ Proof.
     apply andb_true_iff in V as [_ V]. apply Nat.leb_le. exact V. }
   destruct (aggr_terminates res nc ins H) as [out E]. exists out. split; [exact E|apply pred_holds; exact E].
 Qed.
+
+(* ---- tie T for the batch sizes: the formulas written in the model are the ones in the
+   Go source (regenerated into Gen on every run) ---- *)
+
+Lemma raw_batch_size_model len nc :
+  Z.to_nat (raw_batch_size (Z.of_nat len) (Z.of_nat nc)) = (len / nc + 1)%nat.
+Proof.
+  unfold raw_batch_size. cbv zeta beta. destruct nc as [|nc'].
+  - change (Z.of_nat 0) with 0. destruct (Z.of_nat len); reflexivity.
+  - rewrite Z.quot_div_nonneg by lia. rewrite <- Nat2Z.inj_div.
+    rewrite Z2Nat.inj_add by lia. rewrite Nat2Z.id. reflexivity.
+Qed.
+
+Lemma aggr_batch_size_model len nc :
+  Z.to_nat (aggr_batch_size (Z.of_nat len) (Z.of_nat nc)) = (len / nc)%nat.
+Proof.
+  unfold aggr_batch_size. cbv zeta beta. destruct nc as [|nc'].
+  - change (Z.of_nat 0) with 0. destruct (Z.of_nat len); reflexivity.
+  - rewrite Z.quot_div_nonneg by lia. rewrite <- Nat2Z.inj_div. apply Nat2Z.id.
+Qed.
